@@ -400,7 +400,6 @@ Proof. intros R Au C. apply sim_auto_on; assumption. Qed.
 End SP.
 
 (* ---- shapes: sample_shape = value_shape[: len(value_shape) - len(batch_shape) - len(event_shape)] ---- *)
-Definition sample_shape (vs b e : list nat) : list nat := firstn (length vs - length b - length e) vs.
 
 (* the drawn array has shape sample_shape ++ batch_shape ++ event_shape; it is the shape of the current
    value exactly when the current value ends in batch_shape ++ event_shape *)
@@ -586,3 +585,53 @@ Proof.
 Qed.
 
 End SG.
+
+(* ---- shapes of the drawn values, for ANY reachable entry state ------------------------------------------
+   With tfp's sampler decomposed as in Simulate.v ([tfp_sample]) and tfp's law
+   shape (sample(sh, seed)) = sh ++ batch_shape ++ event_shape, every visited variable keeps the shape of
+   the value it shows when it is drawn (= at the call, nothing being drawn twice), provided that this
+   value ends in batch_shape ++ event_shape of its distribution AT THE NEWLY DRAWN VALUES of its ancestors.
+   No hypothesis on the entry state beyond RInv: cached parameters may be outdated and hold values of
+   other shapes. *)
+Section ShapeKept.
+Variables (V F S : Type) (interp : F -> list V -> V) (dflt : V) (g : graph F).
+Variable shape_of : V -> list nat.
+Variable bshape : F -> list V -> list nat.
+Variable eshape : F -> list nat.
+Variable draw : F -> S -> list V -> list nat -> V.
+Hypothesis draw_shape : forall f sd ps sh, shape_of (draw f sd ps sh) = sh ++ bshape f ps ++ eshape f.
+
+Notation smp := (tfp_sample shape_of bshape eshape draw).
+
+Fixpoint shapes_kept (ds : list (dinfo F * S)) (now fin : list V) : Prop :=
+  match ds with
+  | [] => True
+  | p :: r =>
+      let cur := denote interp dflt g now (d_at (fst p)) in
+      ((exists pre, shape_of cur
+                    = pre ++ bshape (d_samp (fst p)) (map (denote interp dflt g fin) (d_params (fst p)))
+                          ++ eshape (d_samp (fst p)))
+       -> shape_of (getv dflt fin (d_tgt (fst p))) = shape_of cur)
+      /\ shapes_kept r (anc1 interp dflt smp g now p) fin
+  end.
+
+Lemma joint_shapes_kept ds : forall now fin,
+  joint interp dflt smp g ds now fin -> shapes_kept ds now fin.
+Proof.
+  induction ds as [|p r IH]; intros now fin J; [exact I|].
+  cbn [Simulate.joint] in J. destruct J as [J1 J2]. cbn [shapes_kept]. split; [|apply IH; exact J2].
+  intros Hex. rewrite J1. unfold tfp_sample. rewrite draw_shape. apply shape_preserved. exact Hex.
+Qed.
+
+Theorem simulate_shapes (W : wf g) rs order skip seeds : RInv V F interp dflt g rs ->
+  let ds := combine (filter (selected skip) order) seeds in
+  Forall (dinfo_ok F g) (map fst ds) -> Forall (tgt_value F g) (map fst ds) -> order_ok g (map fst ds) ->
+  let r := simulate_lit interp dflt smp RefreshInputs g rs order skip seeds in
+  snd r = false /\ shapes_kept ds (vals (cur rs)) (vals (cur (fst r))).
+Proof.
+  intros R ds Hd Ht Ho r.
+  destruct (simulate_spec V F S interp dflt smp g W rs order skip seeds R Hd Ht Ho) as [A [_ [_ [J _]]]].
+  split; [exact A|]. apply joint_shapes_kept. exact J.
+Qed.
+
+End ShapeKept.
